@@ -13,3 +13,4 @@ import EmuVerif.Props.C08
 #print axioms EmuVerif.Props.C08.energy_is_rayleigh_and_residual
 #print axioms EmuVerif.Props.C08.variational_bound
 #print axioms EmuVerif.Props.C08.C08_exact
+#print axioms EmuVerif.Props.C08.public_wrapper_uses_callers_tolerances
